@@ -16,7 +16,7 @@ DRIVERS = [
     ("bimap_driver", "ExtractBimap.v", "bimap_model.ml", "bimap_driver.ml"),
     ("observer_driver", "ExtractObserver.v", "observer_model.ml", "observer_driver.ml"),
 ]
-GO_PKGS = ["proxy", "encryption", "interceptor", "collect"]
+GO_PKGS = ["proxy", "encryption", "interceptor", "collect", "proto/compat"]
 
 
 def main():
